@@ -65,6 +65,7 @@ def rule_LK0(ctx, tier):
                 rr.fail("self:%s@%s" % (R.short(c), h),
                         "`%s` is locked again while a guard of the same mutex is held: %s" % (R.short(c), " > ".join(x[0] for x in w["chain"])),
                         where=b.line_of(w["bb"]), detail={"chain": w["chain"]})
+    rr.require_floor(9, "LK0 instances")
     return rr
 
 
@@ -227,6 +228,7 @@ def rule_LK2(ctx, tier):
             rr.ok("wait-in-loop:" + wb, sample={"rule": "LK2", "wait_site": wb, "re-checks predicate in a loop": True})
         else:
             rr.fail("wait-not-in-loop:" + wb, "Condvar::wait result is not re-checked in a loop (spurious wake-ups / missed predicate)", where=W.line_of(wbb))
+    rr.require_floor(2, "LK2 instances")
     return rr
 
 
@@ -391,6 +393,7 @@ def rule_AT3(ctx, tier):
             rr.fail("charge-store-not-atomic",
                     "no lock is held from `Gatekeeper::add_update_appointment` to the store call in `Watcher::add_appointment` (held at charge: %s): two concurrent submissions of the same new appointment both see 'not stored yet' and are both charged" % sorted(R.short(x) for x in at_charge),
                     where=b.line_of(c))
+    rr.require_floor(1, "AT3 instances")
     return rr
 
 
@@ -447,6 +450,7 @@ def rule_AT4(ctx, tier):
         else:
             rr.fail("reorg-scan-before-purge", "`Responder::block_disconnected` collects the trackers confirmed in the disconnected block before the block leaves the index: a concurrent `handle_breach` can find the penalty in that block and store `ConfirmedIn(h)` after the scan — never flagged as reorged, never rebroadcast, completed and refunded 100 blocks later", where=b.line_of(sc))
     # the Watcher's side: its cache entry for the block goes away in block_disconnected too (TH checks the driver discipline)
+    rr.require_floor(1, "AT4 instances")
     return rr
 
 
@@ -477,6 +481,7 @@ def rule_AT5(ctx, tier):
             rr.ok("purge: %s under the users guard" % (call_target(b.term(x)) or "?").split("::")[-1])
         else:
             rr.fail("purge:%s-outside" % (call_target(b.term(x)) or "?").split("::")[-1], "`%s` runs in `Gatekeeper::filtered_block_connected` without the users guard that selected the outdated users" % (call_target(b.term(x)) or "?"), where=b.line_of(x))
+    rr.require_floor(3, "AT5 instances")
     return rr
 
 
